@@ -40,6 +40,9 @@ class Ctx:
         only_tags = os.environ.get("VERIF_TAGS")      # debugging aid: restrict a check to some builds
         if only_tags and tag not in only_tags.split(","):
             return
+        only_modes = os.environ.get("VERIF_MODES")    # debugging aid: restrict a check to some engine modes
+        if only_modes and (mode or "") not in only_modes.split(","):
+            return
         ekw = {k: kw.pop(k) for k in ("name", "extra_cflags", "libs", "cc") if k in kw}
         exe = self.engine(tag, src, **ekw)
         if self.only_run is not None:
